@@ -5,14 +5,17 @@
    Fragment: one field construct; domain axes (size, netCDF dimension name, unlimited flag);
    data over a list of axes; per axis at most one dimension coordinate, written as a coordinate
    variable (axis spanned by the data) or as a scalar coordinate variable (size-1 axis not spanned by
-   the data and by nothing else); auxiliary coordinates over data axes (numeric or string valued);
-   bounds; cell measures; field ancillaries; cell methods over axes; netCDF names set or unset, with
-   the writer's name allocator.  Data and properties are opaque (the standard_name is kept because
-   it is the default netCDF variable name).
+   the data and by nothing else); auxiliary coordinates over data axes (numeric or string valued),
+   and 1-d auxiliary coordinates on a size-1 axis the data do not span (scalar coordinate variables);
+   the storage kind of every variable (numeric, char, netCDF string - the latter two chosen by fmt
+   and string); bounds; cell measures; field ancillaries; cell methods over axes; netCDF names set or
+   unset, with the writer's name allocator.  Data and properties are opaque (the standard_name is
+   kept because it is the default netCDF variable name).  READER only: data compressed by gathering
+   (list variable with a `compress' attribute; implied dimensions).
 
    OUT of the model (carried by the property oracle only): domain constructs, coordinate references
    (grid mappings, formula terms), domain ancillaries, external variables, climatology, the `seen'
-   registry that merges equal constructs, DSG / gathered compression, geometries, UGRID, groups. *)
+   registry that merges equal constructs, writing of gathered data, DSG, geometries, UGRID, groups. *)
 From Coq Require Import DecimalString DecimalNat.
 From CfdmV Require Import Common.Base.
 Open Scope string_scope.
